@@ -1,5 +1,3 @@
-//go:build wip_c18
-
 package props
 
 import (
